@@ -1,5 +1,5 @@
 \* generated by mkcfg.sh
-SPECIFICATION Spec
+SPECIFICATION GenSpec
 CONSTANTS
   Aux <- MCAux
   NodeKinds <- MCNodeKinds
@@ -9,29 +9,29 @@ CONSTANTS
   MaxCalls = 1
   SrcEnc = "none"
   DstEnc = "none"
-  EmptyArrayNil = TRUE
-  NilEntryPanics = TRUE
-  KeyByAsked = TRUE
+  EmptyArrayNil = FALSE
+  NilEntryPanics = FALSE
+  KeyByAsked = FALSE
   RecordAfter = FALSE
   DropParms = FALSE
   VerbatimAlways = FALSE
   StepBound = 400
   ScalarAtoms = {"i:7"}
-  MaxSlots = 2
-  WithDict = TRUE
+  MaxSlots = 1
+  WithDict = FALSE
   WithNest = FALSE
   Nest2 = FALSE
-  WithStream = FALSE
-  StreamLayouts = {"none"}
+  WithStream = TRUE
+  StreamLayouts = {"none","direct"}
   WithDangling = FALSE
   WithNullObj = FALSE
   WithScalarObj = TRUE
-  CallOps = {"ref","arr2"}
+  CallOps = {"ref","arr2","obj"}
   WithTwin = FALSE
   CFIndirect = FALSE
   PlainIdentity = FALSE
   KeyByNumber = FALSE
   CryptProbeDirectOnly = FALSE
-  ParmRefLayouts = {}
+  ParmRefLayouts = {"dict","array","inddict","indarray"}
   InlinedAsIs = FALSE
 INVARIANTS Once Repeat Terminates NoPanic ErrorsOnlyUnsupported Shape Sharing IsoInv
